@@ -278,4 +278,107 @@ theorem leg_acc_imm_formOk (ctx : Spec.X86.Ctx) (rule : Rule) (p : Parsed) (byte
   simp [hop, hs, hpp8, ha67, allOk]
   exact ⟨hw, by simpa using c66, by simpa using cF3, by simpa using cF2, cF0, c9B, by omega, by simpa using ccont⟩
 
+/-- legacy moffs form (A0..A3) without a 67 prefix, 64-bit mode: the 8 address bytes follow the opcode: [66|F3|F2]? [REX]? escape opcode (64-bit mode) -/
+theorem parse_legacy_op_moff (r : Rule) (pp : Nat) (rex : Option (BitVec 8)) (o : BitVec 8) (imm : List (BitVec 8))
+    (hpp : pp < 4) (hs : r.space = 0) (hfw : r.pp &&& 8 = 0) (hmap : r.map < 4) (hmk : r.modKind = 0)
+    (hrex : ∀ b, rex = some b → b.toNat / 16 = 4 ∧ isLegacyPrefix b false = false)
+    (ho : r.map = 0 → isLegacyPrefix o false = false ∧ (rex = none → o.toNat / 16 ≠ 4))
+    (hlen : imm.length = 8) (himm0 : r.immBytes = 0) (hrel0 : r.relBytes = 0) (hmoff : r.moff = true) :
+    parse true r (ppBytes pp ++ rex.toList ++ legacyEscape r.map ++ o :: imm) =
+      .ok { prefixes := ppBytes pp, rex := rex, W := rexBit rex 3, R := rexBit rex 2, X := rexBit rex 1, B := rexBit rex 0,
+            map := r.map, opcode := o, imm := imm,
+            length := (ppBytes pp).length + rex.toList.length + (legacyEscape r.map).length + 1 + imm.length } := by
+  have hpp' : pp = 0 ∨ pp = 1 ∨ pp = 2 ∨ pp = 3 := by omega
+  have hmap' : r.map = 0 ∨ r.map = 1 ∨ r.map = 2 ∨ r.map = 3 := by omega
+  cases rex with
+  | none =>
+    rcases hmap' with m | m | m | m
+    · obtain ⟨ho1, ho2⟩ := ho m
+      have ho2' := ho2 rfl
+      rcases hpp' with h | h | h | h <;> subst h <;>
+        (simp [parse, takePrefixes, isLP_66, isLP_F3, isLP_F2, isLP_0F, rexBit, ppBytes, legacyEscape, bind, Except.bind, pure, Except.pure, m, hs, hfw, hmk,
+          hlen, himm0, hrel0, hmoff, ho1, ho2'] <;> try omega)
+    all_goals
+      rcases hpp' with h | h | h | h <;> subst h <;>
+        (simp [parse, takePrefixes, isLP_66, isLP_F3, isLP_F2, isLP_0F, rexBit, ppBytes, legacyEscape, bind, Except.bind, pure, Except.pure, m, hs, hfw, hmk,
+          hlen, himm0, hrel0, hmoff] <;> try omega)
+  | some b =>
+    obtain ⟨hb1, hb2⟩ := hrex b rfl
+    rcases hmap' with m | m | m | m
+    all_goals
+      rcases hpp' with h | h | h | h <;> subst h <;>
+        (simp [parse, takePrefixes, isLP_66, isLP_F3, isLP_F2, isLP_0F, rexBit, ppBytes, legacyEscape, bind, Except.bind, pure, Except.pure, m, hs, hfw, hmk,
+          hlen, himm0, hrel0, hmoff, hb1, hb2] <;> try omega)
+
+
+/-- legacy moffs load `mov acc, [moffs]`: fixed accumulator (not encoded) and an absolute address after the opcode -/
+theorem leg_acc_moff_formOk (ctx : Spec.X86.Ctx) (rule : Rule) (p : Parsed) (bytes : List (BitVec 8)) (pp : Nat)
+    (k : RegKind) (f0 f3 : FormOp) (id : Nat) (m : MemOp)
+    (hmode : ((if ctx.mode64 then rule.modes &&& 2 else rule.modes &&& 1) != 0) = true)
+    (hs : rule.space = 0) (hpp8 : rule.pp &&& 8 = 0)
+    (h66 : (rule.pp &&& 1 != 0 || rule.osz == 16) = (pp == 1)) (hF3 : (rule.pp &&& 2 != 0) = (pp == 2)) (hF2 : (rule.pp &&& 4 != 0) = (pp == 3))
+    (hpplt : pp < 4) (hri : rule.ri = false) (ha67 : rule.a67 = false)
+    (hf0 : f0.role = .none) (hf3 : f3.role = .moff)
+    (hbk : m.baseKind = .none) (hik : m.indexKind = .none) (hseg : m.seg = 0) (hbc : m.bcst = 0) (himm0 : rule.immBytes = 0)
+    (haddr : leNat (p.imm.take p.imm.length) = m.disp.toNat)
+    (hal : alignOps rule.oszEff rule.ops [.reg k id, .mem m] = some [(f0, some (.reg k id)), (f3, some (.mem m))])
+    (hparse : parse ctx.mode64 rule bytes = .ok p)
+    (hvk : p.vexKind = 0) (hpfx : p.prefixes = ppBytes pp) (hmodrm : p.modrm = Option.none) (hop : p.opcode.toNat = rule.opcode)
+    (hw : wWant rule = 2 ∨ p.W = (wWant rule == 1)) :
+    formOk ctx rule [.reg k id, .mem m] {} bytes = true := by
+  obtain ⟨c66, cF3, cF2, cF0, c9B, c67, cseg, ccont⟩ := count_ppBytes pp hpplt
+  have hleg : isLegacySpace rule = true := by simp [isLegacySpace, hs]
+  simp only [formOk, conds, hal, hparse, hmode]
+  simp only [allOk_cons, allOk_append, decorConds, headConds, prefixConds, modrmConds, operandConds, opConds, tailConds, hf0, hf3,
+    allOk_nil, memOperandOf, implMemOf, usesVvvv, memDestOf,
+    hasBcst, hleg, hri, hmodrm, hpfx, hvk, c66, cF3, cF2, cF0, c9B, c67, cseg, ccont, h66, hF3, hF2, List.foldl, List.find?, List.nil_append]
+  simp [hop, hs, hpp8, ha67, allOk, hbk, hik, hseg, hbc, himm0, haddr, segPrefix]
+  and_intros
+  all_goals first
+    | exact hw
+    | exact cF0
+    | exact c9B
+    | omega
+    | (simpa using c66)
+    | (simpa using cF3)
+    | (simpa using cF2)
+    | (simpa using cseg)
+    | (simpa using ccont)
+    | simp_all
+
+/-- legacy moffs store `mov [moffs], acc` -/
+theorem leg_moff_acc_formOk (ctx : Spec.X86.Ctx) (rule : Rule) (p : Parsed) (bytes : List (BitVec 8)) (pp : Nat)
+    (k : RegKind) (f0 f3 : FormOp) (id : Nat) (m : MemOp)
+    (hmode : ((if ctx.mode64 then rule.modes &&& 2 else rule.modes &&& 1) != 0) = true)
+    (hs : rule.space = 0) (hpp8 : rule.pp &&& 8 = 0)
+    (h66 : (rule.pp &&& 1 != 0 || rule.osz == 16) = (pp == 1)) (hF3 : (rule.pp &&& 2 != 0) = (pp == 2)) (hF2 : (rule.pp &&& 4 != 0) = (pp == 3))
+    (hpplt : pp < 4) (hri : rule.ri = false) (ha67 : rule.a67 = false)
+    (hf0 : f0.role = .none) (hf3 : f3.role = .moff)
+    (hbk : m.baseKind = .none) (hik : m.indexKind = .none) (hseg : m.seg = 0) (hbc : m.bcst = 0) (himm0 : rule.immBytes = 0)
+    (haddr : leNat (p.imm.take p.imm.length) = m.disp.toNat)
+    (hal : alignOps rule.oszEff rule.ops [.mem m, .reg k id] = some [(f3, some (.mem m)), (f0, some (.reg k id))])
+    (hparse : parse ctx.mode64 rule bytes = .ok p)
+    (hvk : p.vexKind = 0) (hpfx : p.prefixes = ppBytes pp) (hmodrm : p.modrm = Option.none) (hop : p.opcode.toNat = rule.opcode)
+    (hw : wWant rule = 2 ∨ p.W = (wWant rule == 1)) :
+    formOk ctx rule [.mem m, .reg k id] {} bytes = true := by
+  obtain ⟨c66, cF3, cF2, cF0, c9B, c67, cseg, ccont⟩ := count_ppBytes pp hpplt
+  have hleg : isLegacySpace rule = true := by simp [isLegacySpace, hs]
+  simp only [formOk, conds, hal, hparse, hmode]
+  simp only [allOk_cons, allOk_append, decorConds, headConds, prefixConds, modrmConds, operandConds, opConds, tailConds, hf0, hf3,
+    allOk_nil, memOperandOf, implMemOf, usesVvvv, memDestOf,
+    hasBcst, hleg, hri, hmodrm, hpfx, hvk, c66, cF3, cF2, cF0, c9B, c67, cseg, ccont, h66, hF3, hF2, List.foldl, List.find?, List.nil_append]
+  simp [hop, hs, hpp8, ha67, allOk, hbk, hik, hseg, hbc, himm0, haddr, segPrefix]
+  and_intros
+  all_goals first
+    | exact hw
+    | exact cF0
+    | exact c9B
+    | omega
+    | (simpa using c66)
+    | (simpa using cF3)
+    | (simpa using cF2)
+    | (simpa using cseg)
+    | (simpa using ccont)
+    | simp_all
+
 end AsmjitVerif.Lemmas.X86Parse
